@@ -215,6 +215,10 @@ def run(ctx):
         extra += [['disabled'] * len(modgen.DISABLE_WORDS) + ['pass'], ['pass'] + ['disabled'] * len(modgen.DISABLE_WORDS)]
         for kinds in extra:
             jobs.append((tmp, len(jobs) + 1000, kinds, 'functions', ['auto', 'freeform'][len(jobs) % 2], ''))
+        # a callable named like a command word of the native runner (all, dump, list), force-disabled or not: `all` still means all
+        for special in ('all', 'dump', 'list'):
+            for kinds in (['disabled', 'pass', 'pass'], ['disabled', 'fail_output', 'pass'], ['fail_output', 'pass'], ['pass', 'disabled']):
+                jobs.append((tmp, len(jobs) + 1000, kinds, 'special:' + special, ['auto', 'freeform'][len(jobs) % 2], ''))
         # many failures in one module: the exit status is a small number that a process can report (256 failures are not "0")
         jobs.append((tmp, nmods, ['fail_output'] * 256 + ['pass'], 'functions', 'freeform', ''))
         jobs.append((tmp, nmods + 1, ['fail_exc'] * 512, 'functions', 'google', ''))
